@@ -330,6 +330,7 @@ def run(ctx):
           ("layout-file" in ml or "layout_file" in ml) and "layout_loading::load_layout_from_file" in cone)
     ll = ctx.body("layout_loading::load_layout_from_file")
     names = [n for _, n, _ in ll.calls()]
+    loader_chain_rule(ctx, ck, "C15-R1")
     ck.ob("C15-R1", ll.path, "loader-chains-json->parse->convert",
           any(n.startswith("serde_json::from_reader") for n in names)
           and "layout_parsing_formatting::parse_layout_from_json" in names and "fancy_layout_interpreting::convert" in names)
@@ -506,3 +507,56 @@ def r4_reader_lists(ctx, ck):
                     good = isinstance(l_, tuple) and l_[0] == "index" and l_[1] == xs and l_[2] == hi
             oks.append(good)
         ck.ob("C15-R4", fn, "list-split-as-all-but-the-last++[last]", bool(oks) and all(oks), detail="%d paths" % len(oks))
+
+
+
+def loader_chain_rule(ctx, ck, rid):
+    """load_layout_from_file hands the JSON value exactly as serde_json::from_reader produced it to
+    parse_layout_from_json, and its result exactly to convert: no pass in between rewrites the document or the layout
+    (only error-message adapters over the Result are allowed)"""
+    ll = ctx.body("layout_loading::load_layout_from_file")
+    ok = False
+    why = "no successful path"
+    saved = mir.Walker.AUTO_INLINE
+    mir.Walker.AUTO_INLINE = False      # a new helper between the steps must stay visible as a call
+    try:
+        paths = mir.walk_function(ll)
+    finally:
+        mir.Walker.AUTO_INLINE = saved
+    for p in paths:
+        if p.outcome[0] != "return":
+            continue
+        r = p.outcome[1]
+        if not (isinstance(r, tuple) and r[0] == "call" and r[1] == "fancy_layout_interpreting::convert"):
+            continue
+
+        def through_adapters(t):
+            # okval / try / error adapters (a crate-local fn whose name says convert_*_error, map_err) around a Result
+            for _ in range(8):
+                if isinstance(t, tuple) and t and t[0] in ("okval",):
+                    t = t[1]
+                elif isinstance(t, tuple) and t and t[0] == "call" and (mir.method_name(t[1]) in ("map_err",) or (t[1].startswith("layout_loading::convert_") and t[1].endswith("_error"))):
+                    t = t[2][-1] if t[1].startswith("layout_loading::") else t[2][0]
+                else:
+                    break
+            return t
+        a1 = through_adapters(mir.strip(r[2][0]))
+        if not (isinstance(a1, tuple) and a1[0] == "call" and a1[1] == "layout_parsing_formatting::parse_layout_from_json"):
+            why = "convert is not given the result of parse_layout_from_json itself: %s" % show(a1)[:80]
+            break
+        a2 = through_adapters(mir.strip(a1[2][0]))
+        if not (isinstance(a2, tuple) and a2[0] == "call" and a2[1].startswith("serde_json::from_reader")):
+            why = "parse_layout_from_json is not given the value read by serde_json::from_reader itself: %s" % show(a2)[:80]
+            break
+        # ... and nothing in between gets `&mut` access to the document or to the parsed layout
+        doc = mir.strip(a1[2][0])
+        lay = mir.strip(r[2][0])
+        start = max([i for i, e in enumerate(p.events) if e.kind == "call" and e.a.startswith("serde_json::from_reader")] or [0])
+        touched = [e for e in p.events[start + 1:] if e.kind == "call" and e.d and any(mir.strip(x) in (doc, lay) or mir.mentions(mir.strip(x), doc) or mir.mentions(mir.strip(x), lay) for x in e.d)
+                   and e.a not in ("fancy_layout_interpreting::convert", "layout_parsing_formatting::parse_layout_from_json") and not e.a.startswith("serde_json::from_reader")
+                   and mir.method_name(e.a) not in ("branch", "from_residual")]
+        if touched:
+            why = "%s is given mutable access to the document between reading and converting it" % touched[0].a
+            break
+        ok, why = True, None
+    ck.ob(rid, ll.path, "the-document-goes-from-from_reader-to-parse-to-convert-untouched", ok, detail=why)
